@@ -43,7 +43,7 @@ func run(r *ev.Run) {
 	defer os.RemoveAll(root)
 
 	specs := allSpecs()
-	nHist := r.Pick(8, 320)
+	nHist := r.Pick(12, 320)
 
 	// Flush of an empty buffer is probed first (a backing store whose BeginBatch takes a
 	// resource must not be left holding it): a wedged store is reported once there, and the
